@@ -9,6 +9,7 @@ import (
 	"encoding/json"
 	"fmt"
 	"os"
+	"runtime"
 	"time"
 	"unsafe"
 )
@@ -162,3 +163,253 @@ func vfClockMaxStep(ns int64) {}
 // vfUnwind declares an unwinding bound (loop-head visits per call frame) for
 // the rest of the path; natively a watchdog in the replay driver plays its role.
 func vfUnwind(n int) {}
+
+// ---- threads (native replay side) ----
+//
+// The engine records every scheduling decision as a "sched" entry holding the
+// id of the goroutine that runs next. Natively a token is passed accordingly:
+// a goroutine runs only while it holds the token, except that a goroutine
+// blocked inside the library (detected by a watchdog timeout) is skipped and,
+// once unblocked, runs on until its next vfYield, where it waits for the token.
+
+type vfThread struct {
+	id   int
+	turn chan struct{}
+	done bool
+}
+
+var vfSched struct {
+	mu      chan struct{} // 1-slot lock for the fields below
+	threads []*vfThread
+	holder  int
+	arrived chan int // a goroutine reached a scheduling point (its id)
+	active  bool
+	gen     int
+}
+
+func vfSchedInit() {
+	vfSched.mu = make(chan struct{}, 1)
+	vfSched.mu <- struct{}{}
+	vfSched.threads = []*vfThread{{id: 0, turn: make(chan struct{}, 1)}}
+	vfSched.holder = 0
+	vfSched.active = true
+	vfSched.gen = 0
+}
+
+const vfBlockTimeout = 300 * time.Millisecond
+
+// vfGive hands the token to thread id and starts a watchdog that treats the
+// thread as blocked inside the library when it does not reach a scheduling
+// point in time.
+var vfDebug = os.Getenv("VF_DEBUG") != ""
+
+func vfDbg(f string, a ...interface{}) {
+	if vfDebug {
+		fmt.Fprintf(os.Stderr, "[vf] "+f+"\n", a...)
+	}
+}
+
+func vfGive(id int) {
+	vfDbg("give -> %d", id)
+	<-vfSched.mu
+	vfSched.holder = id
+	t := vfSched.threads[id]
+	vfSched.mu <- struct{}{}
+	vfArm(id)
+	select {
+	case t.turn <- struct{}{}:
+	default:
+	}
+}
+
+// vfArm (re)starts the watchdog for the goroutine that now runs with the token.
+func vfArm(id int) {
+	<-vfSched.mu
+	vfSched.gen++
+	gen := vfSched.gen
+	t := vfSched.threads[id]
+	vfSched.mu <- struct{}{}
+	go func() {
+		time.Sleep(vfBlockTimeout)
+		<-vfSched.mu
+		stale := vfSched.gen != gen || vfSched.holder != id || t.done
+		vfSched.mu <- struct{}{}
+		if stale || id == 0 {
+			return
+		}
+		// blocked inside the library: schedule on its behalf
+		next := vfNextSched()
+		vfDbg("watchdog: %d blocked, next=%d", id, next)
+		if next >= 0 && next != id {
+			vfGive(next)
+		}
+	}()
+}
+
+// vfNextSched reads the next scheduling decision from the witness (-1: none).
+func vfNextSched() int {
+	defer func() { recover() }()
+	if vfW == nil || vfPos >= len(vfW.Nondets) {
+		return -1
+	}
+	if vfW.Nondets[vfPos].Kind != "sched" {
+		return -1
+	}
+	v := vfW.Nondets[vfPos].Value
+	vfPos++
+	return int(v)
+}
+
+// vfAcquire waits until this goroutine holds the token.
+func vfAcquire(me int) {
+	for {
+		<-vfSched.mu
+		h := vfSched.holder
+		vfSched.mu <- struct{}{}
+		if h == me {
+			return
+		}
+		select {
+		case <-vfSched.threads[me].turn:
+		case <-time.After(5 * time.Second):
+			panic("vf: goroutine never scheduled again in replay")
+		}
+	}
+}
+
+func vfMe() int {
+	// goroutine identity: the harness passes it explicitly through vfCurrent
+	return vfCurrent()
+}
+
+var vfGID = map[int64]int{}
+
+func vfCurrent() int {
+	<-vfSched.mu
+	id, ok := vfGID[vfGoroutineID()]
+	vfSched.mu <- struct{}{}
+	if !ok {
+		return 0
+	}
+	return id
+}
+
+func vfGoroutineID() int64 {
+	var buf [64]byte
+	n := runtime.Stack(buf[:], false)
+	// "goroutine 123 [running]:"
+	var id int64
+	for _, c := range buf[10:n] {
+		if c < '0' || c > '9' {
+			break
+		}
+		id = id*10 + int64(c-'0')
+	}
+	return id
+}
+
+// vfYield is a scheduling point (the transport model calls it on entry to
+// every operation).
+func vfYield() {
+	if !vfSched.active || len(vfSched.threads) < 2 {
+		return
+	}
+	me := vfMe()
+	vfAcquire(me)
+	next := vfNextSched()
+	vfDbg("yield me=%d next=%d pos=%d", me, next, vfPos)
+	if next >= 0 && next != me {
+		vfGive(next)
+		vfAcquire(me)
+	}
+	vfArm(me)
+}
+
+// vfGo starts a goroutine of the harness.
+func vfGo(f func()) {
+	if !vfSched.active {
+		vfSchedInit()
+		<-vfSched.mu
+		vfGID[vfGoroutineID()] = 0
+		vfSched.mu <- struct{}{}
+	}
+	<-vfSched.mu
+	t := &vfThread{id: len(vfSched.threads), turn: make(chan struct{}, 1)}
+	vfSched.threads = append(vfSched.threads, t)
+	vfSched.mu <- struct{}{}
+	go func() {
+		<-vfSched.mu
+		vfGID[vfGoroutineID()] = t.id
+		vfSched.mu <- struct{}{}
+		vfAcquire(t.id)
+		vfArm(t.id)
+		defer func() {
+			r := recover()
+			if r != nil {
+				vfThreadPanic(r)
+			}
+			// thread end: a scheduling decision
+			vfAcquire(t.id)
+			<-vfSched.mu
+			t.done = true
+			vfSched.mu <- struct{}{}
+			next := vfNextSched()
+			vfDbg("exit me=%d next=%d", t.id, next)
+			if next >= 0 {
+				vfGive(next)
+			} else {
+				vfGive(0)
+			}
+		}()
+		f()
+	}()
+	vfYield()
+}
+
+var vfThreadPanicCh = make(chan interface{}, 8)
+
+func vfThreadPanic(r interface{}) {
+	select {
+	case vfThreadPanicCh <- r:
+	default:
+	}
+}
+
+// vfJoin waits for all goroutines started with vfGo.
+func vfJoin() {
+	if !vfSched.active {
+		return
+	}
+	for {
+		select {
+		case r := <-vfThreadPanicCh:
+			panic(r)
+		default:
+		}
+		<-vfSched.mu
+		all := true
+		for _, t := range vfSched.threads[1:] {
+			if !t.done {
+				all = false
+			}
+		}
+		vfSched.mu <- struct{}{}
+		if all {
+			select {
+			case r := <-vfThreadPanicCh:
+				panic(r)
+			default:
+			}
+			return
+		}
+		vfAcquire(0)
+		next := vfNextSched()
+		vfDbg("join next=%d", next)
+		if next > 0 {
+			vfGive(next)
+		} else {
+			// no decision left: let everybody run freely
+			time.Sleep(50 * time.Millisecond)
+		}
+	}
+}
